@@ -254,6 +254,9 @@ def known_findings():
     return json.loads(f.read_text())["findings"]
 
 
+MAX_VIOLATION_LINES = 10
+
+
 class Run:
     def __init__(self, pid, module, tier, seed, replay=None):
         self.pid = pid
@@ -323,6 +326,7 @@ class Run:
 
         # shrink + classify each failure; group by signature
         by_sig = collections.OrderedDict()
+        more_sigs = more_cases = 0
         for c, kind, detail in self.failures:
             sig = None
             try:
@@ -335,6 +339,10 @@ class Run:
         for sig, items in by_sig.items():
             if sig in open_sigs:
                 known_printed.append((sig, open_sigs[sig], len(items)))
+                continue
+            if len(violations) >= MAX_VIOLATION_LINES:
+                more_sigs += 1
+                more_cases += len(items)
                 continue
             c, kind, detail = items[0]
             if hasattr(self.mod, "shrink"):
@@ -374,6 +382,9 @@ class Run:
             print(f"KNOWN-FINDING: property={pid} {sig}: {k['description']} ({n} case(s) this run)")
         for path, suffix in violations:
             print(f"VIOLATION property={pid} replay={path}{suffix}")
+        if more_sigs:
+            print(f"({more_sigs} further failing signature(s) covering {more_cases} case(s) not listed: only the first {MAX_VIOLATION_LINES} are written as replays)")
+            self.notes.append(f"{more_sigs} further failing signatures ({more_cases} cases) not written as replays")
 
         thms = lean.get("theorems", {})
         cov = dict(
